@@ -300,8 +300,16 @@ def main():
         cfgs.append(base)
     walls = []
     items = []
+    caught = {}
     for r in H.pmap(enum_paths, cfgs, run.args.jobs):
         run.add_stats(r.get('stats', {}))
+        if r.get('canary') == '__not_applicable__':
+            caught['__not_applicable__'] = True          # the canary's edit does not apply to the current source
+            continue
+        if 'cfg' not in r:
+            for i in r.get('inconclusive', []):
+                run.inconc(i)
+            continue
         if not r['cfg'].get('canary_name'):
             for i in r.get('inconclusive', []):
                 run.inconc(i)
@@ -310,7 +318,6 @@ def main():
             items.append((r['cfg'], d))
     items.sort(key=lambda it: -(it[0]['nd'] * 10 + len(it[0]['nprocs']) * 3 + len(it[0]['layouts'])))
     run.sections['paths_total'] = len(items)
-    caught = {}
     for r in H.pmap(run_item, items, run.args.jobs):
         r['configs'] = 0
         if r.get('canary'):
